@@ -18,4 +18,8 @@ MCReqs == {r1, r2}
 ReqSymmetry == Permutations(MCReqs)
 MCSegs == {"keep", "odd"}
 MCOneSrc == {"s1"}
+
+(* the tabulated response function of HeimdallOps is RuleIndex!Probe on the version's rule set *)
+ASSUME \A src \in MCSrcs, k \in 1..6, seg \in TabSegs :
+          LET a == [c |-> VerName(k), rules |-> VerRules(k)] IN Resp(src, a, seg) = RespDirect(src, a, seg)
 =============================================================================
